@@ -166,7 +166,7 @@ func permutations(n int) [][]int {
 func genC02(g *Rng, tier string, emit func(Op)) {
 	ka, kb := fixedKey("k1024a", true), fixedKey("k1024b", true)
 	pool := []*KeyPair{ka, kb}
-	nsess := 5
+	nsess := 7
 	if tier == "thorough" {
 		pool = append(pool, fixedKey("k2048", true))
 		nsess = 40
@@ -181,7 +181,20 @@ func genC02(g *Rng, tier string, emit func(Op)) {
 		for i := range specs {
 			specs[i] = builderSpec{kp: pool[g.intn(len(pool))], issuance: g.intn(4) == 0, nonrev: g.intn(4) == 0, rng: g.intn(4) == 0}
 		}
+		// the first sessions have fixed shapes, so that every shape a verifier may treat specially
+		// occurs in every run: a lone issuance commitment, a lone disclosure, one of each, two commitments
+		shapes := [][]bool{{true}, {false}, {true, false}, {true, true}}
+		if si < len(shapes) {
+			specs = make([]builderSpec, len(shapes[si]))
+			for i, iss := range shapes[si] {
+				specs[i] = builderSpec{kp: pool[(si+i)%len(pool)], issuance: iss}
+			}
+			n = len(specs)
+		}
 		issig := g.coin()
+		if si < len(shapes) {
+			issig = si%2 == 1
+		}
 		s := buildSession(g, specs, randSecret(g), issig)
 		emit(listOp(s.keys, s.trees, s.ctx, s.nonce, s.issig, nil, "identity", "accept"))
 		// context / nonce: one-bit and arbitrary changes
